@@ -98,16 +98,16 @@ theorem finishDir_once (m : M Prim) (hall : m.AllP (SoleOnce dir cmd tmpl)) (g :
 theorem whole_walk_once (c : Config) (m : M Prim) (root : Node Attr) (g : GS)
     (hall : m.AllP (SoleOnce dir cmd tmpl)) (hone : m.weight wT ≤ 1)
     (hwalk : ((refCfg c).depthFirst = false ∧ PruneOkN (refCfg c) (evalEntry m start) [] 0 (if c.sorted then sortNode root else root)) ∨
-             ((refCfg c).depthFirst = true ∧ ¬ HRootLink (refCfg c) (if c.sorted then sortNode root else root))) :
+             (refCfg c).depthFirst = true) :
     let n := if c.sorted then sortNode root else root
     ∃ L, (processDir c m start (some root) g).gs.execs = g.execs ++ L ∧
       L.Sublist ((visitsN (refCfg c) [] 0 n).map (eventOf dir cmd tmpl start)) := by
   intro n
   have hroot : processRoot (refCfg c) (evalEntry m start) n { g with curDir := none } =
       (let q := refRoot (refCfg c) (evalEntry m start) n ⟨{ g with curDir := none }, 0, 0⟩; resOf q.1 q.2) := by
-    rcases hwalk with ⟨h1, h2⟩ | ⟨h1, h2⟩
+    rcases hwalk with ⟨h1, h2⟩ | h1
     · exact processRoot_preN (refCfg c) (evalEntry m start) h1 n h2 _
-    · exact processRoot_post (refCfg c) (evalEntry m start) h1 n h2 _
+    · exact processRoot_postAny (refCfg c) (evalEntry m start) h1 n _
   have hsub := refNode_sub (refCfg c) (evalEntry m start) (TWO dir cmd tmpl start)
     (fun s => ⟨[], by simp, by simp⟩)
     (fun a b cc l1 l2 h1 h2 => by
